@@ -60,6 +60,14 @@ pub fn directed() -> Vec<(&'static str, &'static str)> {
         ("overwrite-makes-garbage", "stel a = [1.5]; functie f() { 0 } a = [2.5]; a = \"nu een string\"; f(); a"),
         ("array-element-overwrite", "stel a = [\"een\", \"twee\"]; functie f() { 0 } a[0] = \"drie\"; f(); a[1] = [4.5]; f(); a"),
         ("negate-float", "functie f(x) { -x } f(1.5)"),
+        // buffers owned by a box (the text of a string, the elements of an array) in their corner cases: emptied in place,
+        // grown in place, never filled; released with the box on every exit path (the valgrind family and the Miri pass
+        // see the buffers, the ledger sees the boxes)
+        ("string-emptied-in-place", "stel s = \"a\"; s[0] = \"\"; functie f() { 0 } f(); lengte(s)"),
+        ("string-emptied-step-by-step", "stel s = \"abc\"; s[0] = \"\"; s[0] = \"\"; s[0] = \"\"; stel t = \"é\"; t[0] = \"\"; [lengte(s), lengte(t)]"),
+        ("string-grown-in-place", "stel s = \"a\"; s[0] = \"een veel langere tekst dan er eerst stond\"; functie f() { 0 } f(); lengte(s)"),
+        ("empty-strings-and-arrays", "functie f() { [\"\", [], [[]], \"\" + \"\"] } f(); stel leeg = f(); lengte(leeg)"),
+        ("string-emptied-then-error", "stel s = \"xy\"; s[0] = \"\"; s[0] = \"\"; s[5]"),
         ("many-temporaries", "functie f(i) { [string(i), float(i), [i]] } stel i = 0; stel last = 0; zolang i < 30 { last = f(i); i += 1 }; last"),
     ]
 }
